@@ -45,6 +45,11 @@ CHECKS = {
         technique='same exhaustive enumeration as C05; every necessarily-broken group without a forced break must be justified by a reference linearisation of its continuation (overflow, smart look-ahead overflow, or a later always_break); plus exhaustive width sweep around the one-line length of every corpus value',
         text='For every enumerated document, configuration and strategy, each group that the output proves broken and that contains no forced break must have a justification computed on the reference term (not by calling the implementation predicate). For values, every corpus value whose unbounded rendering is one line of L columns must print as that line at all widths/ribbons in L..L+2, 2L, 200. Eager breaking (off-by-one at exact fit, ribbon applied from the wrong origin) yields valid text that no pinned test notices; the enumeration reaches exact-fit configurations for every small document.',
         note='trusted: reference linearisation in mc/checks/_decisions.py (permissive where the statement is silent: a hoisted always_break later on the line also counts as justification); bound as C05'),
+    'C12': dict(
+        category='exploration', design_ref='DESIGN.md 4/C12',
+        technique='deterministic step counting (sys.monitoring LINE events inside the package) over an enumerated grammar of input families at n, 2n, 4n, 8n; doubling ratio bounded by 8 and enforced as a step budget on the next run',
+        text='Every family of the grammar - nestings through each container/call/comment wrapper, flat sequences, long strings with and without break opportunities, strings nested until no width is left, commented nestings, and every wrapper recipe of length <= 2 (quick) / 3 (thorough) - is printed at four doubling sizes while package line events are counted. The count at 2n must stay within 8x the count at n (+slack); the limit is installed as a budget, so an exponential family is reported after a bounded number of steps instead of being waited for, and exceeding the first budget is a termination violation. Counts are exactly reproducible, unlike the wall-clock thresholds of the two pinned performance tests.',
+        note='a bounded check of a growth law on enumerated families, not a proof of a polynomial bound; a regression from quadratic to cubic is inside the property and not flagged; trusted: sys.monitoring event delivery'),
     'C13': dict(
         category='model_checking', design_ref='DESIGN.md 4/C13',
         technique='exhaustive enumeration of all rooted object graphs <= 3 nodes (list / dict / tuple-holding-list, out-degree <= 2, self-loops, sharing) printed by the real code and compared, as ASTs, with a reference DFS carrying the on-path set; exhaustive re-print / aborted-print / pair histories for residue',
